@@ -261,8 +261,10 @@ func (e *c34Env) boundaryPayloads() []c34Payload {
 			{Dst: "../../var/lib/demo", Type: "dir"}, c34File(j("etc/app.conf"), "/var/lib/demo/x/../app.conf"), c34File(j("share/doc/README"), "usr//share/./doc/README"),
 			{Src: j("tree"), Dst: "../usr/share/demo-tree", Type: "tree"}}},
 		{"long-names", []wire.Content{c34File(j("bin/tool"), "/opt/long/"+strings.Repeat("d", 60)+"/"+strings.Repeat("n", 120)+".txt"),
-			c34File(j("etc/app.conf"), "/opt/long/"+strings.Repeat("e", 90)+"/"+strings.Repeat("f", 90)+"/"+strings.Repeat("g", 110)),
-			{Src: "/" + strings.Repeat("t", 130), Dst: "/opt/long/" + strings.Repeat("l", 101), Type: "symlink"}}},
+			c34File(j("etc/app.conf"), "/opt/long/"+strings.Repeat("e", 91)+"/"+strings.Repeat("f", 90)+"/"+strings.Repeat("g", 110)),
+			{Src: "/" + strings.Repeat("t", 130), Dst: "/opt/long/" + strings.Repeat("l", 101), Type: "symlink"},
+			// 120 bytes that USTAR can split into prefix (59) and name (60)
+			c34File(j("share/doc/README"), "/opt/long/"+strings.Repeat("p", 50)+"/"+strings.Repeat("s", 60))}},
 	}
 	for _, k := range []int{1, 511, 512, 513, 1023, 1024, 1025, 4095, 4096, 4097} {
 		ps = append(ps, c34Payload{fmt.Sprintf("exact-%d", k), []wire.Content{c34File(e.exact[k], fmt.Sprintf("/opt/exact/f%d.bin", k))}})
@@ -1057,7 +1059,7 @@ func (e *c34Env) analyse(fam, format string, s *PkgSpec, data []byte, res *c34Re
 			return
 		}
 		var req, want strings.Builder
-		withPax, withBin := 0, 0
+		withPax, withBin, withLong := 0, 0, 0
 		fmt.Fprintf(&req, "tarfile %d", len(es))
 		fmt.Fprintf(&want, "%d", len(es))
 		for _, en := range es {
@@ -1079,7 +1081,7 @@ func (e *c34Env) analyse(fam, format string, s *PkgSpec, data []byte, res *c34Re
 				why = "skipped-non-ascii-owner"
 			}
 			// a name / link name travels in a `path` / `linkpath` record when the header field cannot hold it; without
-			// the record it must fit the field (GNU long-name members and the USTAR prefix field are outside the model)
+			// the record an over-long value is carried by a GNU long-name member or split into the USTAR prefix field
 			fieldOK := func(val, key string) string {
 				rec, has := en.PAX[key]
 				switch {
@@ -1096,11 +1098,12 @@ func (e *c34Env) analyse(fam, format string, s *PkgSpec, data []byte, res *c34Re
 						return "skipped-name-cut-at-a-slash"
 					}
 					return ""
-				case len(val) > 100:
-					return "skipped-long-name"
+				case en.Format == "GNU" && len(val) > 100 && val[99] == '/':
+					return "skipped-name-cut-at-a-slash"
 				case en.Format != "GNU" && !c34ASCII(val):
 					return "skipped-non-ascii-name"
 				}
+				// over-long values: GNU 'L' / 'K' members, USTAR prefix field – both in the model
 				return ""
 			}
 			if why == "" {
@@ -1142,6 +1145,9 @@ func (e *c34Env) analyse(fam, format string, s *PkgSpec, data []byte, res *c34Re
 			if en.Mode >= 1<<21 || en.Uid >= 1<<21 || en.Gid >= 1<<21 || en.MTime >= 1<<33 || en.Size >= 1<<33 {
 				withBin++
 			}
+			if len(en.Name) > 100 || len(en.Linkname) > 100 {
+				withLong++
+			}
 			fmt.Fprintf(&req, " %s %s %d %d %d %d %d %d %s %s %s %s %s", fl, wire.H(en.Name), en.Mode, en.Uid, en.Gid, en.Size, en.MTime, en.Type,
 				wire.H(en.Linkname), wire.H(en.Uname), wire.H(en.Gname), pax.String(), wire.H(string(en.Body)))
 			fmt.Fprintf(&want, " %s %s %d %d %d %d %d %d %s %s %s %s %d", fl, wire.H(en.Name), en.Mode, en.Uid, en.Gid, en.Size, en.MTime, en.Type,
@@ -1149,6 +1155,9 @@ func (e *c34Env) analyse(fam, format string, s *PkgSpec, data []byte, res *c34Re
 		}
 		if withBin > 0 {
 			res.TarBy[format+":"+which+":compared-with-binary-number-fields"]++
+		}
+		if withLong > 0 {
+			res.TarBy[format+":"+which+":compared-with-names-over-100-bytes"]++
 		}
 		if withPax > 0 {
 			res.TarBy[format+":"+which+":compared-with-pax-records"]++
